@@ -453,8 +453,8 @@ public:
     RCP<const Number> rpowreal(const Rational &other) const
     {
         if (other.is_negative()) {
-            return number(std::pow(std::complex<double>(i),
-                                   mp_get_d(other.as_rational_class())));
+            return number(std::pow(mp_get_d(other.as_rational_class()),
+                                   std::complex<double>(i)));
         }
         return make_rcp<const RealDouble>(
             std::pow(mp_get_d(other.as_rational_class()), i));
